@@ -52,12 +52,34 @@ def e8_multi_interval(rng):
     return lines, dict(family="chm.e8-multi-interval", hist=[list(x) for x in hist], distinct=[list(x) for x in sorted(set(hist))],
                        damaged=False, two=False, nontrivial=True, directed="e8-multi-interval")
 
+def mixed_sections(rng):
+    """directed: a stored (section 0) file extracted between two compressed ones - the section-0 read moves the shared
+    input handle while the LZX decoder is kept for the next compressed file"""
+    for kind in ("uncompressed", "verbatim"):
+        case = S.chm_mixed_sections(rng, kind)
+        lines0 = [f"file A0_{nm} {bts.hex()}" for nm, bts in case["files"].items()]
+        nm = "A0_" + case["meta"]["order"][0]
+        idx = {m["name"]: j for j, m in enumerate(case["members"])}
+        a, b, c, d = idx[b"/a.bin"], idx[b"/b.txt"], idx[b"/c.bin"], idx[b"/d.bin"]
+        for hist in ([a, b, c], [a, b, d], [c, b, d, b, a, b, c], [a, c, b, d]):
+            h = [(0, j) for j in hist]
+            lines = lines0 + ["new chm", f"open i0 {nm}"] + [f"extract i0 h0 {j} out" for j in hist]
+            inst = 1
+            for (_, j) in sorted(set(h)):
+                lines += ["new chm", f"open i{inst} {nm}", f"extract i{inst} h{inst} {j} out", f"destroy i{inst}"]; inst += 1
+            yield lines, dict(family="chm.mixed-sections", hist=[list(x) for x in h], distinct=[list(x) for x in sorted(set(h))],
+                              damaged=False, two=False, nontrivial=True, directed="mixed-sections-" + kind)
+
 def generate(ctx):
     rng = ctx.rng
     try:
         yield e8_multi_interval(rng)
     except Exception as e:
         C.log(f"C08: e8-multi-interval generator failed: {e!r}")
+    try:
+        yield from mixed_sections(rng)
+    except Exception as e:
+        C.log(f"C08: mixed-sections generator failed: {e!r}")
     n = 40 if ctx.tier == "quick" else 1500
     k = 0
     while k < n:
@@ -119,6 +141,8 @@ def judge(ctx, meta, impl, model):
     fresh = {m: (e.get("st"), e.get("out")) for m, e in zip(dist, ex[nh:])}
     for k, (m, e) in enumerate(zip(meta["hist"], ex[:nh])):
         got = (e.get("st"), e.get("out"))
+        if meta["damaged"] and fresh[tuple(m)][0] != "0":
+            continue        # a member of the damaged folder itself: the property speaks of members of intact folders
         if got != fresh[tuple(m)]:
             fs.append(Finding("violation", f"call {k} (archive {m[0]} member {m[1]}) after history {meta['hist'][:k]}: {got}, on a fresh decompressor: {fresh[tuple(m)]}"
                                            + (" [archive damaged]" if meta["damaged"] else "")))
